@@ -163,7 +163,7 @@ def run_model(pid, tier):
     """TLC over all endpoint configs; returns (cases, states, transitions, runs, coverage)"""
     cases, states, transitions, runs, cov = [], 0, 0, [], {}
     for ep in ("SafeMix", "Names", "NamesMacro", "Headers", "HeadersMacro", "Echo", "Attrs", "Regex", "Query", "AuthCookie", "OptBody", "SafeBody"):
-        r = vc.tlc(pid, "MCEndpoint", "MCEndpoint_%s.cfg" % ep, workers=4, timeout_s=900)
+        r = vc.tlc(pid, "MCEndpoint", "MCEndpoint_%s%s.cfg" % (ep, "_t" if tier == "thorough" else ""), workers=4 if tier == "quick" else 12, timeout_s=3000)
         if r.error:
             raise vc.ToolError("MCEndpoint_%s: %s" % (ep, r.error))
         vc.require_actions(r, ["Pick", "Done"])
